@@ -1,6 +1,8 @@
 package props
 
 import (
+	"go/token"
+	"go/types"
 	"strings"
 
 	"golang.org/x/tools/go/ssa"
@@ -12,9 +14,9 @@ func init() {
 	register(&Prop{
 		ID: "C18",
 		Explanation: "Structural necessary conditions of 'a response-wrapping token reveals its payload exactly once': " +
-			"(1) the wrapping token built by Core.wrapInCubbyhole is single-use (NumUses: 1), carries only the response-wrapping policy, and has TTL = ExplicitMaxTTL = the wrap TTL; the payload and the wrap info are stored under that token's own cubbyhole (request ClientToken = the new token's ID, constant cubbyhole paths); " +
+			"(1) the wrapping token built by Core.wrapInCubbyhole is single-use (NumUses: 1), carries only the response-wrapping policy, and has TTL = ExplicitMaxTTL = the wrap TTL; the lease registered for it (the thing that expires it) carries that same entry's TTL and is not renewable; the payload and the wrap info are stored under that token's own cubbyhole (request ClientToken = the new token's ID, constant cubbyhole paths); " +
 			"(2) once wrapInCubbyhole ran, Core.handleCancelableRequest returns only wrapInCubbyhole's own (error) response or a fresh response whose only populated fields are WrapInfo and Warnings — never the original response; " +
-			"(3) the three sys/wrapping/{lookup,rewrap,unwrap} paths reach the request handlers only across validateWrappingToken == true, which is returned only for a looked-up token that IsWrappingToken accepts; third-party unwrap/rewrap consume the use count (UseTokenByID success) before reading the cubbyhole and revoke the token afterwards (deferred revokeOrphan); " +
+			"(3) the three sys/wrapping/{lookup,rewrap,unwrap} paths reach the request handlers only across validateWrappingToken == true, which is returned only for a looked-up token that IsWrappingToken accepts; third-party unwrap/rewrap consume the use count (UseTokenByID success) before reading the cubbyhole and revoke the token afterwards (deferred revokeOrphan), and the thirdParty flag that selects this is the constant true on every edge on which the token acted on was named in the request body (it is decided together with the choice of the token and is the value tested / handed to responseWrappingUnwrap, whose only caller is handleWrappingUnwrap); " +
 			"(4) the decrement is the locked read-modify-write of C19; (5) lookup reports creation_path from the stored wrap info.",
 		NotDecided: "'exactly one of k concurrent unwraps succeeds' (schedules); TTL expiry behaviour; that the cubbyhole backend isolates tokens (C12.4).",
 		Run:        runC18,
@@ -89,11 +91,36 @@ func runC18(c *eng.Ctx, thorough bool) {
 			c.Prov(f, "resp.WrapInfo.CreationPath", st, st.Val, `^field:req\.Path$`)
 		}
 		// the lease of the wrapping token is not renewable and bounded by its TTL
-		for _, ra := range eng.Calls(f, `vault\.\(\*ExpirationManager\)\.RegisterAuth$`) {
+		ras := eng.Calls(f, `vault\.\(\*ExpirationManager\)\.RegisterAuth$`)
+		c.Floor(f, "RegisterAuth of the wrapping token", len(ras), 1)
+		for _, ra := range ras {
 			auth := ra.Common().Args[3]
 			for _, v := range eng.StructLitField(auth, "ClientToken") {
 				c.Prov(f, "lease registered for the wrapping token", ra, v, `^field:&te\.ID$`)
 			}
+			// the token expires through this lease: its TTL is the wrapping token's own TTL (the wrap
+			// TTL pinned above), read from the very entry handed to CreateToken, and it cannot be renewed
+			var created ssa.Value
+			if len(ct) > 0 {
+				created = ct[0].Common().Args[2]
+			}
+			nTTL := 0
+			for _, lo := range c18NestedLit(auth, "LeaseOptions") {
+				for _, v := range eng.StructLitField(lo, "TTL") {
+					nTTL++
+					site := "lease TTL of the wrapping token"
+					if base, ok := c18FieldLoad(v, "TTL"); ok && created != nil && base == created && ra.Common().Args[2] == created {
+						c.OK(f, site, ra.Pos(), "LeaseOptions.TTL = TTL of the token entry created and registered ("+eng.Expr(v)+")")
+					} else {
+						c.Violation(f, site, ra.Pos(), "the lease registered for the wrapping token runs for "+eng.ExprDeep(v)+", not for the TTL field of the token entry handed to CreateToken/RegisterAuth: the token (and its payload) would outlive the wrap TTL", nil)
+					}
+				}
+				// (an unset Renewable is the zero value false)
+				for _, v := range eng.StructLitField(lo, "Renewable") {
+					c.Prov(f, "lease of the wrapping token not renewable", ra, v, `^const:false$`)
+				}
+			}
+			c.Floor(f, "LeaseOptions.TTL of the wrapping token's lease", nTTL, 1)
 		}
 	}
 
@@ -251,6 +278,17 @@ func runC18(c *eng.Ctx, thorough bool) {
 			}
 		}
 	}
+	// the thirdParty flag those two functions branch on means what its name says
+	for _, fn := range []string{"vault.(*SystemBackend).handleWrappingUnwrap", "vault.(*SystemBackend).handleWrappingRewrap"} {
+		if f := c.Fn(fn); f != nil {
+			c18ThirdPartyFlag(c, f)
+		}
+	}
+	if m, missing := c.P.StaticCallee("vault.(*SystemBackend).responseWrappingUnwrap"); len(missing) == 0 {
+		c.Clause("R1", "C18.3")
+		c.CallerTable("responseWrappingUnwrap (trusts its thirdParty argument)", c.P.FindCalls(m, nil),
+			map[string]string{"vault.(*SystemBackend).handleWrappingUnwrap": "passes the flag decided with the choice of the token"}, 1)
+	}
 	// ---- C18.5 lookup reports the stored creation path
 	if f := c.Fn("vault.(*SystemBackend).handleWrappingLookup"); f != nil {
 		c.Clause("R5", "C18.5")
@@ -274,6 +312,114 @@ func runC18(c *eng.Ctx, thorough bool) {
 			c.Violation(f, "creation_path reported", f.Pos(), "lookup no longer reports creation_path", nil)
 		}
 	}
+}
+
+// c18NestedLit: the places the fields of the nested struct literal
+// base.<name> = T{...} are stored through (a temporary literal copied in
+// whole, or the field addressed in place).
+func c18NestedLit(base ssa.Value, name string) []ssa.Value {
+	var out []ssa.Value
+	for _, v := range eng.StructLitField(base, name) {
+		if ld, ok := v.(*ssa.UnOp); ok && ld.Op == token.MUL {
+			if a, ok := ld.X.(*ssa.Alloc); ok {
+				out = append(out, a)
+			}
+		}
+	}
+	if refs := base.Referrers(); refs != nil && len(out) == 0 {
+		for _, r := range *refs {
+			if fa, ok := r.(*ssa.FieldAddr); ok && eng.FieldVar(fa) != nil && eng.FieldVar(fa).Name() == name {
+				out = append(out, fa)
+			}
+		}
+	}
+	return out
+}
+
+// c18FieldLoad: v reads field <name> through a pointer; returns the pointer.
+func c18FieldLoad(v ssa.Value, name string) (ssa.Value, bool) {
+	ld, ok := v.(*ssa.UnOp)
+	if !ok || ld.Op != token.MUL {
+		return nil, false
+	}
+	fa, ok := ld.X.(*ssa.FieldAddr)
+	if !ok || eng.FieldVar(fa) == nil || eng.FieldVar(fa).Name() != name {
+		return nil, false
+	}
+	return fa.X, true
+}
+
+// c18ThirdPartyFlag (R5, C18.3): handleRequest has only counted a use of the
+// caller's own token. When the wrapping token is instead named in the request
+// body nobody has consumed its single use yet, so the handler itself must
+// (UseTokenByID + revokeOrphan, both behind the thirdParty flag). The flag must
+// therefore be true on every edge on which the token acted on comes from the
+// body, whatever else is true of the caller.
+func c18ThirdPartyFlag(c *eng.Ctx, f *ssa.Function) {
+	c.Clause("R5", "C18.3")
+	site := "thirdParty = (wrapping token named in the request body)"
+	lt := eng.Calls(f, `vault\.\(\*TokenStore\)\.lookupTainted$`)
+	if !c.Floor(f, "lookupTainted of the wrapping token", len(lt), 1) {
+		return
+	}
+	tok, ok := lt[0].Common().Args[2].(*ssa.Phi)
+	if !ok {
+		c.Undecided(f, site, lt[0].Pos(), "the token looked up is "+eng.ExprDeep(lt[0].Common().Args[2])+", not a merge of the body token and the caller's token")
+		return
+	}
+	// the flag is decided where the token is chosen: the boolean merged at the same point
+	var flags []*ssa.Phi
+	for _, in := range tok.Block().Instrs {
+		if p, ok := in.(*ssa.Phi); ok && p != tok {
+			if b, ok := p.Type().Underlying().(*types.Basic); ok && b.Kind() == types.Bool {
+				flags = append(flags, p)
+			}
+		}
+	}
+	if len(flags) != 1 {
+		c.Undecided(f, site, tok.Pos(), "no single boolean is decided together with the choice of the token (anchor moved?)")
+		return
+	}
+	flag := flags[0]
+	// ... and it is the flag that is acted on
+	used := 0
+	for _, cl := range eng.Calls(f, `vault\.\(\*SystemBackend\)\.responseWrappingUnwrap$`) {
+		a := cl.Common().Args
+		if a[len(a)-1] == ssa.Value(flag) {
+			used++
+		} else {
+			c.Violation(f, site, cl.Pos(), "responseWrappingUnwrap is told thirdParty = "+eng.ExprDeep(a[len(a)-1])+", not the flag decided with the choice of the token", nil)
+			return
+		}
+	}
+	for _, b := range f.Blocks {
+		if ifi := eng.IfOf(b); ifi != nil && eng.Normalize(ifi.Cond).Val == ssa.Value(flag) {
+			used++
+		}
+	}
+	if used == 0 {
+		c.Undecided(f, site, flag.Pos(), "the flag decided with the choice of the token is neither tested nor handed to responseWrappingUnwrap")
+		return
+	}
+	n := 0
+	for i, e := range tok.Edges {
+		fromBody := false
+		for _, o := range eng.Origins(e) {
+			if o.Kind == "call" && strings.Contains(o.Desc, "framework.(*FieldData).Get") {
+				fromBody = true
+			}
+		}
+		if !fromBody {
+			continue
+		}
+		n++
+		if k, ok := flag.Edges[i].(*ssa.Const); ok && eng.Expr(k) == "true" {
+			c.OK(f, site, flag.Pos(), "where the token is "+eng.Expr(e)+" the flag is the constant true")
+		} else {
+			c.Violation(f, site, flag.Pos(), "where the token comes from the request body the flag is "+eng.ExprDeep(flag.Edges[i])+" instead of true: for those callers the wrapping token is read without consuming its use or revoking it", nil)
+		}
+	}
+	c.Floor(f, "edges on which the token comes from the request body", n, 1)
 }
 
 func isAllocOf(v ssa.Value, typ string) bool {
